@@ -434,7 +434,10 @@ func (x *rx) writer() {
 			}
 			conns = append(conns, x.field(recv))
 			e := st.sc.ele
-			okArgs := len(call.Args) >= 4 && x.eleFieldAt(st.sc.g, st.p, call.Args[1], e, "key") && x.eleFieldAt(st.sc.g, st.p, call.Args[2], e, "pttl") && x.eleFieldAt(st.sc.g, st.p, call.Args[3], e, "value")
+			okArgs, unknown := len(call.Args) >= 4, false
+			if okArgs {
+				okArgs, unknown = x.argsAre(st.sc.g, st.p, e, call.Args[1:4], "key", "pttl", "value")
+			}
 			replace := false
 			if len(call.Args) == 5 {
 				s, _ := core.StringConst(x.info, call.Args[4])
@@ -447,7 +450,7 @@ func (x *rx) writer() {
 			if replace {
 				variant = "replace"
 			}
-			if !okArgs && len(call.Args) >= 4 && x.viaLocal(call.Args[1:4]) {
+			if unknown {
 				x.opaque = true // the rules on ele.pttl below do not see a value carried in a local
 				x.c.Undecidedf("R2.restore-send", "writer/args:"+variant, call.Pos(), "an argument of `%s` is carried in a local variable: not followed", x.c.Src(call))
 			} else {
@@ -504,8 +507,8 @@ func (x *rx) writer() {
 				continue
 			}
 			e := st.sc.ele
-			okArgs := x.eleFieldAt(st.sc.g, st.p, call.Args[1], e, "key") && x.eleFieldAt(st.sc.g, st.p, call.Args[2], e, "value") && x.eleFieldAt(st.sc.g, st.p, call.Args[3], e, "pttl") && x.eleFieldAt(st.sc.g, st.p, call.Args[4], e, "db")
-			if !okArgs && x.viaLocal(call.Args[1:5]) {
+			okArgs, unknown := x.argsAre(st.sc.g, st.p, e, call.Args[1:5], "key", "value", "pttl", "db")
+			if unknown {
 				x.c.Undecidedf("R2.bigkey", "writer/args", call.Pos(), "an argument of `%s` is carried in a local variable: not followed", x.c.Src(call))
 			} else {
 				x.c.Check("R2.bigkey", "writer/args", call.Pos(), okArgs, "RestoreBigkey must be given (key, value, pttl, db) of this element in parameter order; found `"+x.c.Src(call)+"`")
